@@ -174,7 +174,7 @@ def _unary(model, res, E):
         if not ok2:
             res.violation('R1', 'function:%s:logical-argument' % name, m.where(f),
                           '%s of a logical must treat it as the number 1/0; got %s' % (name, '; '.join(H.describe(outs))), func=f.name)
-    res.floor('unary math functions compared with their closed form', n, 20)
+    res.soft_floor('unary math functions compared with their closed form', n, 20)
 
 
 def _binary(model, res, E):
@@ -306,7 +306,7 @@ def _pv(model, res, E):
             res.violation('R4', 'function:PV:annuity-equation', m.where(f),
                           'PV does not satisfy the annuity equation (%s): the residual is the non-zero expression %s'
                           % (label, repr(resid.num)[:200]), case=label, func=f.name)
-    res.floor('PV branches checked against the annuity equation', n, 2)
+    res.soft_floor('PV branches checked against the annuity equation', n, 2)
     # defaults: fv and type omitted mean 0
     outs = _runs(model, 'PV', lambda: [Sym('float', 'r'), Sym('float', 'n'), Sym('float', 'pmt')])
     full = _runs(model, 'PV', lambda: [Sym('float', 'r'), Sym('float', 'n'), Sym('float', 'pmt'), Const(0), Const(0)])
